@@ -408,6 +408,29 @@ pub fn run_rt(line: &str) -> Result<String, String> {
 				&Hint::Any,
 				&bytes,
 			);
+			// the second decode entry point (`ReaderRead`, refills of a few bytes): the same value,
+			// up to the `borrowed` flags
+			let via_reader = crate::streams::de::run_one(
+				&crate::streams::de::Backend::Reader { last: 1 + line.len() % 5, sched: vec![], max_alloc: 512 * 1024 * 1024 },
+				1_000_000_000,
+				64,
+				&schema,
+				&Hint::Any,
+				&bytes,
+			);
+			// the flag after `str <hex>` / `bytes <hex>` says whether the visitor got a borrowed slice
+			let norm = |x: &str| {
+				let mut ts: Vec<String> = x.split(' ').map(|t| t.to_string()).collect();
+				for i in 2..ts.len() {
+					if (ts[i - 2] == "str" || ts[i - 2] == "bytes") && ts[i - 1].starts_with('x') {
+						ts[i] = "0".into();
+					}
+				}
+				ts.join(" ")
+			};
+			if norm(&via_reader) != norm(&back) {
+				return Ok(format!("ok {} | {} READER-DIFFERS {}", hex(&bytes), back, via_reader));
+			}
 			format!("ok {} | {}", hex(&bytes), back)
 		}
 	})
@@ -1151,6 +1174,38 @@ pub fn generate_single(seed: u64, n: usize, emit: &mut dyn FnMut(String)) {
 		if msg.len() > 10 {
 			let k = rng.gen_range(10..msg.len());
 			variants.push(msg[..k].to_vec());
+		}
+		// corruptions a weak comparison would let through: the same bits flipped in two bytes of the
+		// fingerprint (any XOR / sum fold of the bytes is unchanged), two bytes swapped, all eight
+		// bytes in reverse order, only the last byte or only the first byte kept right
+		if msg.len() >= 10 {
+			let (a, b) = (rng.gen_range(2..10), rng.gen_range(2..10));
+			if a != b {
+				let mask = 1u8 << rng.gen_range(0..8);
+				let mut m = msg.clone();
+				m[a] ^= mask;
+				m[b] ^= mask;
+				variants.push(m);
+				if msg[a] != msg[b] {
+					let mut m = msg.clone();
+					m.swap(a, b);
+					variants.push(m);
+				}
+			}
+			let mut m = msg.clone();
+			m[2..10].reverse();
+			if m != msg {
+				variants.push(m);
+			}
+			for keep in [2usize, 9] {
+				let mut m = msg.clone();
+				for k in 2..10 {
+					if k != keep {
+						m[k] = !m[k];
+					}
+				}
+				variants.push(m);
+			}
 		}
 		let mut w = W::default();
 		w.t("single").schema(&schema).sv(&v).schema(&other).n(variants.len());
